@@ -101,10 +101,12 @@ static ab_member *ab_add(ab_arc *a, int level, int kind, const char *method, con
 			f.name = nm; f.name_len = L;
 			if (kind == 2) for (i = 0; i < L; ++i) nm[i] = (uint8_t) full[i];
 		} else {
-			size_t L = strlen(path);
-			for (i = 0; i < L; ++i) pt[i] = path[i] == '/' ? 0xFF : (uint8_t) path[i];
+			/* the joined string path+name[|target] is split at its last '/': directory part -> path header, rest -> name header */
+			char *ls = strrchr(full, '/');
+			size_t L = ls ? (size_t) (ls - full) + 1 : 0;
+			for (i = 0; i < L; ++i) pt[i] = full[i] == '/' ? 0xFF : (uint8_t) full[i];
 			if (L) { f.ext[f.next].type = 2; f.ext[f.next].data = pt; f.ext[f.next].len = L; ++f.next; }
-			snprintf((char *) nm, sizeof nm, "%s%s%s", name, kind == 2 ? "|" : "", kind == 2 ? target : "");
+			snprintf((char *) nm, sizeof nm, "%s", full + L);
 			if (nm[0]) { f.ext[f.next].type = 1; f.ext[f.next].data = nm; f.ext[f.next].len = strlen((char *) nm); ++f.next; }
 		}
 	}
@@ -118,6 +120,15 @@ static ab_member *ab_add(ab_arc *a, int level, int kind, const char *method, con
 			f.ext[f.next].type = 0x51; f.ext[f.next].data = ug; f.ext[f.next].len = 4; ++f.next;
 			if (level == 1) { f.ext[f.next].type = 0x54; f.ext[f.next].data = ts; f.ext[f.next].len = 4; ++f.next; }
 		}
+	}
+	{
+		/* what a reader must return: the reference normalisation of this very record */
+		ref_norm nn;
+		if (!ref_hdr_normalise(&f, &nn)) return NULL;
+		snprintf(m->path, sizeof m->path, "%s", nn.has_path ? nn.path : "");
+		snprintf(m->name, sizeof m->name, "%s", nn.has_filename ? nn.filename : "");
+		snprintf(m->target, sizeof m->target, "%s", nn.has_target ? nn.target : "");
+		ref_norm_free(&nn);
 	}
 	m->hdr_off = a->n;
 	hl = ref_hdr_encode(&f, a->buf + a->n, a->cap - a->n);
